@@ -30,6 +30,12 @@ CLAIMED["C07"] = ("PARTIAL. The generators are modelled expression by expression
 CLAIMED["C08"] = ("The Bezier functions, chain builders and bezier_star are modelled and equal the crate bit for bit over random control points, segment counts (every count 1..300 quick / 1..2000 thorough for the end-point law) and random histories new -> add* -> [close]; theorems about the model are listed in the evidence. Oracles on implementation output: segments+1 points, first/last point exactly the start/end point, de Casteljau points at i/segments, control box, 2D = 3D on planar input, chains pass through every knot in order with shared joints and continuous tangent direction, closed chains do not repeat the first point, bezier_star = BezierStar::new(..).gen_points().",
   "Real arithmetic in theorems; the exact end-point law is stated from laws valid for finite IEEE doubles (0/n = 0, n/n = 1, x*1 = x, x*0 = 0, 0 + x = x).",
   "Lean 4 model + theorems + Lean-executed oracles + differential correspondence harness", "5/C08")
+CLAIMED["C04"] = ("PARTIAL. linear_extrude, loft, cylinder, rotate_extrude (open and 360) and sweep (open, closed, twisted) are modelled with the crate's exact index arithmetic and equal its points and faces bit for bit on every generated case; index-pattern theorems are listed in the evidence; 'closed and consistently oriented' is proved from the strip/cap structure as far as listed there and otherwise decided by the exact combinatorial oracle (every directed edge in exactly one face, its reverse in exactly one other) on every implementation mesh, and outwardness by the signed volume under the clockwise-outside convention. Cap certificates for non-convex profiles inherit C03's unformalised plane geometry. Thread and viewer meshes are checked by the same oracle in C16/C18.",
+  "Real arithmetic; volume positivity for revolve/sweep is evaluated, not proved; generators keep profiles simple and clockwise, sweeps non-self-intersecting when volume is checked.",
+  "Lean 4 model + index-structure theorems (partial) + exact closed-oriented-surface oracle + differential correspondence harness", "5/C04")
+CLAIMED["C05"] = ("PARTIAL. Same models as C04. Oracles on implementation meshes: extrusion/loft rings are the given profiles unchanged at z = 0 and z = height (exact), revolve ring k is the profile in the half-plane at k*degrees/segments with radius and height kept, sweep ring k is a rigid copy at path point k perpendicular to the chord between its neighbours, Polyhedron transforms move every point and leave faces untouched, linear-extrusion volume = area x height, every end cap is a tiling certificate of the ring it closes (in that ring's own plane) with the right winding. Theorems: see evidence.",
+  "Real arithmetic; cap certificates for concave rings inherit C03's gap; per-ring twist amount is tied by the bit-exact correspondence with the model.",
+  "Lean 4 model + theorems (partial) + Lean-executed placement/cap oracles + differential correspondence harness", "5/C05")
 NOT_YET = {
 }
 ALL = ["C%02d" % i for i in range(1, 20)]
